@@ -1,5 +1,6 @@
 import N2k.Model.RingBuffer
 import Driver.Util
+-- engine: ring
 /-! Engine `ring` (C20): runs `stepRB` / `stepPRB` of the model. -/
 namespace Driver.Ring
 open N2k.Ring N2k.Spec Driver
